@@ -32,8 +32,10 @@ fn main() {
                 let mut line = String::new();
                 std::io::Read::read_to_string(&mut std::io::stdin(), &mut line).ok();
                 let toks: Vec<String> = line.split_whitespace().map(|s| s.to_string()).collect();
+                props::common::set_case_mode(&toks);
                 println!("{}", f(&toks));
             } else {
+                props::common::set_case_mode(&args[3..]);
                 println!("{}", f(&args[3..]));
             }
         }
